@@ -32,6 +32,8 @@ import (
 	"github.com/google/gce-tcb-verifier/keys"
 	"github.com/google/gce-tcb-verifier/storage/local"
 	"github.com/google/gce-tcb-verifier/storage/storagei"
+	"github.com/google/gce-tcb-verifier/testing/nonprod/localkm"
+	"github.com/google/gce-tcb-verifier/testing/nonprod/memkm"
 	tstorage "github.com/google/gce-tcb-verifier/testing/storage"
 
 	"verif/internal/rotsim"
@@ -383,6 +385,18 @@ func build(d *rotsim.Durable, h *history) *world {
 		panic(fmt.Sprintf("harness: unknown base storage client %T", b))
 	}
 	rw.GcsCA.Storage = s
+	if h.RootKey != "" || h.SigningKey != "" {
+		// the key manager's configured key names (only read when a first key is created; later
+		// versions are named after the recorded primary)
+		switch m := rw.Manager.(type) {
+		case *memkm.T:
+			m.RootKeyName, m.PrimarySigningKeyName = h.RootKey, h.SigningKey
+		case *localkm.T:
+			m.RootKeyName, m.PrimarySigningKeyName = h.RootKey, h.SigningKey
+		default:
+			panic(fmt.Sprintf("harness: unknown key manager %T", m))
+		}
+	}
 	w := &world{World: rw, fs: s, pre: s.content()}
 	if !sameObjects(w.pre, d.Objects) {
 		panic("harness: a freshly built store does not hold the durable objects")
